@@ -12,5 +12,6 @@ for f in d['findings']:
     if len(out)!=1:
         print('AMBIGUOUS/MISSING',f['id'],g,out); bad+=1; continue
     f['commit']=out[0].split()[0]; f['commit_subject']=out[0].split(' ',1)[1]
+    f['record']='fixed: property=%s %s %s'%(f['property'],f['commit'],f['what'])
 json.dump(d,open(P,'w'),indent=1,ensure_ascii=False)
 print('synced, problems:',bad)
